@@ -31,6 +31,34 @@ def cond_callers(mod):
                     out.add(fn.name)
     return out
 
+def _predicate_requires_same_f(mod, name):
+    """in the defined function `name`, every return of a value that may be non-zero is dominated by both `x->f == y->f` and `x->f != NULL`
+    on condition records"""
+    from ..bounds import _guards, _norm_cmp
+    g = mod.func(name)
+    if g is None or g.decl:
+        return False
+    def is_f(ref):
+        l = g.imap.get(ref) if isinstance(ref, str) else None
+        return l is not None and l.op == 'load' and util.last_field(util.addr_class(mod, g, l.ops[0])) == 'wait_condition_s.f'
+    def guarded(at):
+        gs = [n for n in (_norm_cmp(g, c_, s_) for c_, s_ in _guards(g, at)) if n]
+        return any(p == 'eq' and is_f(a) and is_f(b) for p, a, b in gs) and any(p == 'ne' and is_f(a) and IR.is_null(b) for p, a, b in gs)
+    points = []
+    for i in g.real_insts():
+        if i.op == 'ret' and i.ops:
+            v = i.ops[0]
+            if IR.is_int(v):
+                if IR.ival(v) != 0:
+                    points.append(i)
+            elif isinstance(v, str) and v in g.imap and g.imap[v].op == 'phi':
+                for pv, pb in g.imap[v].ops:
+                    if not (IR.is_int(pv) and IR.ival(pv) == 0):
+                        points.append(g.bmap[pb].term)
+            else:
+                points.append(i)
+    return bool(points) and all(guarded(at) for at in points)
+
 def _removers(mod):
     """functions that (transitively, 3 levels) unlink an element from a list"""
     base = {'nsync_dll_remove_'}
@@ -370,6 +398,13 @@ def run(ctx, rep):
                 return l is not None and l.op == 'load' and util.last_field(util.addr_class(mod, fn, l.ops[0])) == 'wait_condition_s.' + field
             f_eq = any(p == 'eq' and is_cond_field(a, 'f') and is_cond_field(b, 'f') for p, a, b in gs)
             f_nn = any(p == 'ne' and is_cond_field(a, 'f') and IR.is_null(b) for p, a, b in gs)
+            if not (f_eq and f_nn):
+                # the test may live in a predicate function (WAIT_CONDITION_EQ written as a static inline function): the splice is guarded by
+                # its result being non-zero, and every way the predicate returns non-zero is guarded by f == f and f != NULL
+                for p_, a_, b_ in gs:
+                    ci = fn.imap.get(a_) if isinstance(a_, str) else None
+                    if p_ == 'ne' and IR.is_int(b_) and IR.ival(b_) == 0 and ci is not None and ci.op == 'call' and ci.callee and _predicate_requires_same_f(mod, ci.callee):
+                        f_eq = f_nn = True
             ok = f_eq and f_nn
             rep.instance('C06.R4', 'same-condition splice at %s: guarded by f==f:%s f!=NULL:%s' % (c.where(), f_eq, f_nn)); rep.oblig('C06.R4', ok)
             if not ok:
